@@ -50,6 +50,12 @@ def key_term(kty, k: SV):
             if k.ty == "str": return S.Id.StrId(k.t)
             if k.ty == "int": return S.Id.IntId(k.t)
         return None
+    if isinstance(k, STuple) and isinstance(k.ty, tuple):
+        try:
+            if S.sort_of(k.ty) == S.sort_of(kty): return term_of(k)
+        except Exception:
+            pass
+        return None
     if isinstance(k, SSeq):
         try:
             if S.sort_of(("seq", k.elem)) == S.sort_of(kty): return k.packed()
@@ -136,6 +142,9 @@ def equal(st: St, a: SV, b: SV):
             bi = b.t if b.ty == "int" else z3.If(b.t, 1, 0)
             return ai == bi
         return z3.BoolVal(False)
+    if isinstance(a, STuple) and isinstance(b, STuple):
+        if len(a.items) != len(b.items): return z3.BoolVal(False)
+        return z3.And(*[equal(st, x, y) for x, y in zip(a.items, b.items)]) if a.items else z3.BoolVal(True)
     if getattr(a, "elem", 1) is None or getattr(b, "elem", 1) is None:     # () / [] of unknown type
         o = b if getattr(a, "elem", 1) is None else a
         try:
